@@ -68,12 +68,20 @@ pub fn c18_bytes(data: &[u8]) {
 /// raw bytes into the SMT-LIB readers (C14 iv): any outcome but a panic is acceptable for arbitrary
 /// bytes; an accepted term must be well-typed
 pub fn c14_bytes(data: &[u8]) {
+    init();
+    if let Err(f) = c14_bytes_judge(data) {
+        if known().matches("C14", &f.sig).is_none() {
+            report("C14", &f);
+        }
+    }
+}
+
+pub fn c14_bytes_judge(data: &[u8]) -> Result<(), Failure> {
     use patronus::expr::Context;
     use patronus::smt::{parse_command, parse_expr};
     use rustc_hash::FxHashMap;
-    init();
     if data.is_empty() {
-        return;
+        return Ok(());
     }
     let mut ctx = Context::default();
     let mut st: FxHashMap<String, patronus::expr::ExprRef> = FxHashMap::default();
@@ -111,9 +119,8 @@ pub fn c14_bytes(data: &[u8]) {
         },
         Ok(None) => None,
     };
-    if let Some(f) = f {
-        if known().matches("C14", &f.sig).is_none() {
-            report("C14", &f);
-        }
+    match f {
+        Some(f) => Err(f),
+        None => Ok(()),
     }
 }
